@@ -81,7 +81,11 @@ def run(ctx) -> None:
     for _ in range(ctx.pick(1200, 6000)):
         n = rng.choice([3, 4, 5, 6, 8, 13, 40, 40, 101, ctx.pick(300, 1500)])
         x = gen.series(rng, n, pmiss=rng.choice([0, 0.1, 0.3]))
-        scale = rng.choice([1, 1, 1, 1, 2.0 ** -40, 2.0 ** 30])  # the comparison is exact at every magnitude
+        scale = rng.choice([1, 1, 1, 1, 2.0 ** -40, 2.0 ** 30, "tenths"])  # the comparison is exact at every magnitude
+        if scale == "tenths":
+            # decimal data (12.1, 12.4, ...): the magnitude is the float64 value of |x - (a + c) / 2|, nothing more, nothing less
+            x = [None if v is None else rng.randrange(100, 140) / 10 for v in x]
+            scale = 1
         if scale != 1:
             x = [None if v is None else v * scale for v in x]
         method = rng.choice(["average", "differential"])
